@@ -28,9 +28,10 @@ func main() {
 	tier := flag.String("tier", "quick", "quick | thorough")
 	dump := flag.String("dump", "", "debug: print edge facts of the named function")
 	funcs := flag.Bool("funcs", false, "print the function table (input of tool/known_funcs.txt)")
+	fieldsF := flag.Bool("fields", false, "print the struct-field table (input of tool/known_fields.txt)")
 	exploreF := flag.Bool("explore", false, "development aid: run the generic engines over the whole module")
 	flag.Parse()
-	if *prop == "" && *dump == "" && !*funcs && !*exploreF {
+	if *prop == "" && *dump == "" && !*funcs && !*exploreF && !*fieldsF {
 		fmt.Println("usage: liskcheck -prop Cnn [-tier quick|thorough] [-repo /repo]")
 		os.Exit(2)
 	}
@@ -45,6 +46,12 @@ func main() {
 			if fn.Synthetic == "" {
 				fmt.Println(FuncKey(fn))
 			}
+		}
+		return
+	}
+	if *fieldsF {
+		for _, l := range p.structFields() {
+			fmt.Println(l)
 		}
 		return
 	}
